@@ -68,10 +68,17 @@ Proof. exact filters_in_order_lemma. Qed.
    columns, same rows, same exact values.  After the fix commits 8a96a4a, f9c38b4, 0a78c77, 6a54a3e, c9e4304 the
    guard has lost the conjuncts g_ignchar, g_last_comment, g_blank, g_first_width, g_filter_cols, g_time_col and
    the signed-D / anchoring item conjuncts; the remaining [finding] conjuncts (g_rows_within, g_items charset,
-   g_id_drop) are necessary (Refuted.v); the [class] conjuncts delimit the inputs the documentation speaks about. *)
+   g_id_drop) are necessary (Refuted.v); the [class] conjuncts delimit the inputs the documentation speaks about.
+   Round 4: the [class] conjunct g_no_date is gone — files with DATE/DAT1/DAT2/DAT3 columns (dropped or kept) are inside
+   the theorem: such a column stays text, and while one is named in $INPUT, DROPped or not, TIME stays text as well
+   (docs/NONMEM.rst: "Even if DATE is DROP it will still affect TIME"); Examples.date_column_example. *)
 Theorem reader_refines :
   forall i : input, guard i = true -> project_kept i (read_model i) = spec_read i.
 Proof. exact reader_refines_lemma. Qed.
+(* what the reader does to a TIME column while a DATE column is named: nothing, for every column and every content *)
+Theorem date_keeps_time_text :
+  forall (nullstr mdt : str) (c : column), time_step nullstr mdt true c = c.
+Proof. intros nullstr mdt c. unfold time_step. rewrite andb_false_r. reflexivity. Qed.
 
 (* The write/read cycle.  For every printer `pr` of doubles (DataFrame.to_csv is an engine), every
    missing-data token, every list of column names and every numeric table (any number of rows
